@@ -124,35 +124,57 @@ def read_real(rf, env):
 
 
 def str_to(strcc, fn, env):
-    b = _strip(_body(strcc, r"const\s+char\s*\*\s*" + fn + r"\s*\(\s*const\s+char\s*\*\s*word\s*,\s*std::string\s*&\s*s\s*\)", fn))
-    m = re.search(r"\bchar\s+newword\s*\[\s*([^\]]+)\]\s*;", b)
+    """keyed on structure: the function's `const char *` parameter, its `std::string &` parameter, and — if there is one —
+    the local char array the characters are copied through (whatever the names)"""
+    sig = r"const\s+char\s*\*\s*" + fn + r"\s*\(\s*const\s+char\s*\*\s*(\w+)\s*,\s*std::string\s*&\s*(\w+)\s*\)"
+    m0 = re.search(sig, strcc)
+    if not m0:
+        raise ValueError(f"{fn}( const char *, std::string & ) not found")
+    W, S = m0.group(1), m0.group(2)
+    b = _strip(_body(strcc, sig, fn))
+    m = re.search(r"\bchar\s+(\w+)\s*\[\s*([^\]]+)\]\s*;", b)
     if m:
-        cap = env.ev(m.group(1))
-        loop = re.search(r"while\s*\(([^{]*)\)\s*\{", b)
-        if not loop or _ws(loop.group(1)) != "word[i]!='\\0'":
-            g = re.search(r"i\s*<\s*([A-Za-z_0-9 +\-*()]+?)\s*[)&]", loop.group(1)) if loop else None
-            if not (loop and g and "word[i]!='\\0'" in _ws(loop.group(1))):
-                raise ValueError(f"{fn}: loop condition not recognised")
-            guard = env.ev(g.group(1))
-        else:
-            guard = None
-        if not re.search(r"newword\s*\[\s*i\s*\]\s*=\s*'\\0'", b):
+        A, cap = m.group(1), env.ev(m.group(2))
+        st = re.findall(A + r"\s*\[\s*(\w+)\s*\]\s*=[^=]", b)
+        if not st or len(set(st)) != 1:
+            raise ValueError(f"{fn}: stores into {A} not recognised")
+        I = st[0]
+        loop = re.search(r"(?:while|for)\s*\(([^{]*)\)\s*\{", b)
+        if not loop or _ws(W + "[" + I + "]!='\\0'") not in _ws(loop.group(1)).replace("*(" + W + "+" + I + ")", W + "[" + I + "]"):
+            raise ValueError(f"{fn}: loop condition not recognised")
+        g = re.search(r"\b" + I + r"\s*<\s*([A-Za-z_0-9 +\-*()]+?)\s*[)&;]", loop.group(1) + ")")
+        guard = env.ev(re.sub(r"sizeof\s*\(?\s*" + A + r"\s*\)?", str(cap), g.group(1))) if g else None
+        if not re.search(A + r"\s*\[\s*" + I + r"\s*\]\s*=\s*(?:'\\0'|0)\s*;", b):
             raise ValueError(f"{fn}: terminator store not recognised")
         return f".fixed {cap}", _opt(guard)
-    if "newword" in b:
-        raise ValueError(f"{fn}: `newword` declaration not recognised")
-    if not re.search(r"\bs\s*\+=|\bs\s*\.\s*push_back\s*\(|\bs\s*=\s*word\b|std::transform", b):
+    if re.search(r"\bchar\s+\w+\s*\[", b) or re.search(r"\b(?:alloca|malloc)\s*\(", b):
+        raise ValueError(f"{fn}: scratch storage not recognised")
+    if not re.search(r"\b" + S + r"\s*\+=|\b" + S + r"\s*\.\s*(?:push_back|append|assign)\s*\(|\b" + S + r"\s*=\s*" + W + r"\b|std::transform", b):
         raise ValueError(f"{fn}: neither a fixed scratch array nor std::string growth found")
     return ".growable", "none"
 
 
 def pretty(strcc, env):
-    b = _strip(_body(strcc, r"const\s+char\s*\*\s*PrettyTmpName\s*\(\s*const\s+char\s*\*\s*oldname\s*\)", "PrettyTmpName"))
-    m = re.search(r"static\s+char\s+newname\s*\[\s*([^\]]+)\]\s*;", b)
+    """keyed on structure: parameter, static array and index variable are renamed to canonical names before the loop is
+    compared with the modelled shape"""
+    sig = r"const\s+char\s*\*\s*PrettyTmpName\s*\(\s*const\s+char\s*\*\s*(\w+)\s*\)"
+    m0 = re.search(sig, strcc)
+    if not m0:
+        raise ValueError("PrettyTmpName( const char * ) not found")
+    P = m0.group(1)
+    b = _strip(_body(strcc, sig, "PrettyTmpName"))
+    m = re.search(r"static\s+char\s+(\w+)\s*\[\s*([^\]]+)\]\s*;", b)
     if not m:
-        raise ValueError("PrettyTmpName: `static char newname[...]` not found")
-    cap = env.ev(m.group(1))
-    body = _ws(b)
+        raise ValueError("PrettyTmpName: `static char <array>[...]` not found")
+    A, cap = m.group(1), env.ev(m.group(2))
+    mi = re.search(r"\bint\s+(\w+)\s*=\s*0\s*;", b)
+    if not mi:
+        raise ValueError("PrettyTmpName: index variable not found")
+    I = mi.group(1)
+    canon = b
+    for old, new in ((P, "oldname"), (A, "newname"), (I, "i")):
+        canon = re.sub(r"\b" + old + r"\b", "\x00" + new, canon)
+    body = _ws(canon.replace("\x00", "")).replace("i++;", "++i;")
     tmpl = ("newname[0]='\\0';while((oldname[i]!='\\0')&&(i<@G@)){newname[i]=ToLower(oldname[i]);"
             "if(oldname[i]=='_'){++i;newname[i]=ToUpper(oldname[i]);}if(oldname[i]!='\\0'){++i;}}"
             "newname[0]=ToUpper(oldname[0]);newname[i]='\\0';returnnewname;")
@@ -160,25 +182,31 @@ def pretty(strcc, env):
     mm = re.search(re.escape(pre) + r"([A-Za-z_0-9+\-*()]+?)" + re.escape(post), body)
     if not mm:
         raise ValueError("PrettyTmpName: loop shape not recognised")
-    gexpr = mm.group(1)
-    return cap, env.ev(gexpr)
+    return cap, env.ev(mm.group(1))
 
 
 def entnode(h, env):
-    cls = _strip(_body(h, r"class\s+SC_CORE_EXPORT\s+EntNode\s*\{", "class EntNode"))
-    m = re.search(r"\bchar\s+name\s*\[\s*([^\]]+)\]\s*;", cls)
-    if not m:
-        raise ValueError("EntNode::name not found")
-    cap = env.ev(m.group(1))
-    nm = _body(cls, r"void\s+Name\s*\(\s*const\s+char\s*\*\s*nm\s*\)\s*\{", "EntNode::Name")
-    mm = re.search(r"strncpy\s*\(\s*name\s*,\s*nm\s*,\s*([^;]+?)\)\s*;", nm)
+    """keyed on structure: EntNode's only char-array member, the strncpy into it in Name(), the constructor's copy"""
+    cls = _strip(_body(h, r"class\s+(?:SC_CORE_EXPORT\s+)?EntNode\s*\{", "class EntNode"))
+    arrs = re.findall(r"\bchar\s+(\w+)\s*\[\s*([^\]]+)\]\s*;", cls)
+    if len(arrs) != 1:
+        raise ValueError("EntNode: exactly one char array member expected")
+    M, cap = arrs[0][0], env.ev(arrs[0][1])
+    mn = re.search(r"void\s+Name\s*\(\s*const\s+char\s*\*\s*(\w+)\s*\)\s*\{", cls)
+    if not mn:
+        raise ValueError("EntNode::Name( const char * ) not found")
+    nm = _body(cls, r"void\s+Name\s*\(\s*const\s+char\s*\*\s*\w+\s*\)\s*\{", "EntNode::Name")
+    mm = re.search(r"strncpy\s*\(\s*" + M + r"\s*,\s*" + mn.group(1) + r"\s*,\s*([^;]+?)\)\s*;", nm)
     if not mm:
-        raise ValueError("EntNode::Name: strncpy( name, nm, N ) not found")
-    n = env.ev(mm.group(1))
-    t = re.search(r"name\s*\[\s*([^\]]+)\]\s*=\s*(?:'\\0'|0)\s*;", nm)
-    term = env.ev(t.group(1)) if t else None
-    ctor = _body(cls, r"EntNode\s*\(\s*const\s+char\s*\*\s*nm\s*=\s*\"\"\s*\)[^{]*\{", "EntNode ctor")
-    c = _ws(ctor)
+        raise ValueError("EntNode::Name: strncpy( <member>, <arg>, N ) not found")
+    n = env.ev(re.sub(r"sizeof\s*\(?\s*" + M + r"\s*\)?", str(cap), mm.group(1)))
+    t = re.search(M + r"\s*\[\s*([^\]]+)\]\s*=\s*(?:'\\0'|0)\s*;", nm)
+    term = env.ev(re.sub(r"sizeof\s*\(?\s*" + M + r"\s*\)?", str(cap), t.group(1))) if t else None
+    mc = re.search(r"EntNode\s*\(\s*const\s+char\s*\*\s*(\w+)\s*=\s*\"\"\s*\)", cls)
+    if not mc:
+        raise ValueError("EntNode( const char * = \"\" ) not found")
+    ctor = _body(cls, r"EntNode\s*\(\s*const\s+char\s*\*\s*\w+\s*=\s*\"\"\s*\)[^{]*\{", "EntNode ctor")
+    c = _ws(re.sub(r"\b" + mc.group(1) + r"\b", "nm", re.sub(r"\b" + M + r"\b", "name", ctor)))
     if c == "StrToLower(nm,name);":
         kind = ".unbounded"
     elif c in ("Name(nm);StrToLower(name,name);",):
@@ -186,6 +214,28 @@ def entnode(h, env):
     else:
         raise ValueError(f"EntNode ctor body not recognised: {ctor.strip()!r}")
     return cap, kind, n, term
+
+
+def schformat(reg, env):
+    """Registry::FindEntity: `char schformat[cap]` receives strcpy( …, PrettyTmpName( schNm ) ) — schNm is the FILE_SCHEMA name"""
+    b = _strip(_body(reg, r"Registry::FindEntity\s*\(", "Registry::FindEntity"))
+    m = re.search(r"strcpy\s*\(\s*(\w+)\s*,\s*PrettyTmpName\s*\(\s*\w+\s*\)\s*\)", b)
+    if not m:
+        if "strcpy" in b or "strcat" in b:
+            raise ValueError("Registry::FindEntity: strcpy/strcat of an unrecognised shape")
+        return None
+    d = re.search(r"\bchar\s+(?:\w+\s*\[[^\]]+\]\s*,\s*)*" + m.group(1) + r"\s*\[\s*([^\]]+)\]", b)
+    if not d:
+        raise ValueError("Registry::FindEntity: declaration of the strcpy target not found")
+    return env.ev(d.group(1))
+
+
+def nms_copy_exact(sc):
+    """STEPcomplex ctor: `nms[j] = new char[ names[j]->length() + 1 ]; strcpy( nms[j], names[j]->c_str() )`"""
+    b = _ws(_strip(sc))
+    if "strcpy(" not in b:
+        return True
+    return bool(re.search(r"(\w+)\[(\w+)\]=newchar\[\(?(\w+)\[\2\]\)?->length\(\)\+1\];strcpy\(\1\[\2\],\3\[\2\]->c_str\(\)\);", b))
 
 
 def _match(b, j, open_ch, close_ch):
@@ -388,9 +438,22 @@ def imbed_aggr(rf, env):
 
 
 # sprintf( <buf>, "fmt", args ) into a fixed array, in the files the property is anchored in
-SPRINTF_FILES = ["src/clstepcore/read_func.cc", "src/cleditor/STEPfile.cc", "src/clstepcore/sdaiApplication_instance.cc",
-                 "src/clstepcore/STEPattribute.cc", "src/clstepcore/STEPcomplex.cc", "src/cldai/sdaiEnum.cc",
-                 "src/cldai/sdaiBinary.cc", "src/clstepcore/STEPaggregate.cc", "src/clstepcore/sdaiSelect.cc"]
+SPRINTF_DIRS = ["src/clstepcore", "src/cleditor", "src/cldai", "src/clutils", "include/clstepcore", "include/cleditor",
+                "include/cldai", "include/clutils"]
+
+
+def _sprintf_files(repo):
+    out = []
+    for d in SPRINTF_DIRS:
+        p = os.path.join(repo, d)
+        if not os.path.isdir(p):
+            continue
+        for f in sorted(os.listdir(p)):
+            if f.endswith((".cc", ".h", ".c")):
+                out.append(os.path.join(d, f))
+    return out
+
+
 # %s arguments that are dictionary (schema) names or string literals — bounded by the schema, not by the file
 NAME_ARGS = [r'^"', r"EntityName\(\s*\)$", r"attributes\[i\]\.Name\(\)$", r"attributes\[i\]\.TypeName\(\)\.c_str\(\)$",
              r"ed->Name\(\)$", r"aDesc->Name\(\)$", r"aDesc->Owner\(\)\.Name\(\)$", r"aDesc->TypeName\(\)\.c_str\(\)$",
@@ -400,7 +463,7 @@ NAME_ARGS = [r'^"', r"EntityName\(\s*\)$", r"attributes\[i\]\.Name\(\)$", r"attr
 # bytes of a file being read: outside C05's quantifier, listed separately (see notes/C05.md)
 API_ARGS = [r"^attrValue$"]
 # %s arguments that are the name of the file being read (not its bytes) — see notes/C05.md
-FILENAME_ARGS = [r"FileName\(\)"]
+FILENAME_ARGS = [r"FileName\(\)", r"^filename\.c_str\(\)$"]
 
 
 def _split_args(s):
@@ -443,8 +506,10 @@ def _c_unescape_len(lit):
 
 def sprintf_sites(repo, env):
     sites, api_sites, errors = [], [], []
-    for rel in SPRINTF_FILES:
+    for rel in _sprintf_files(repo):
         text = open(os.path.join(repo, rel)).read()
+        if "sprintf" not in text:
+            continue
         code = _strip(text)
         decls = []   # (offset, name, cap)
         for m in re.finditer(r"\bchar\s+(\w+)\s*\[\s*([^\]]+)\]\s*;", code):
@@ -476,11 +541,11 @@ def sprintf_sites(repo, env):
             fmt = "".join(re.findall(r'"((?:[^"\\]|\\.)*)"', args[1]))
             if not args[1].lstrip().startswith('"'):
                 errors.append(f"{rel}:{line}: non-literal format"); continue
-            convs = re.findall(r"%(?:l?d|s|%|\.\*G)", fmt)
+            convs = re.findall(r"%(?:l?[du]|s|%|\.\*G)", fmt)
             if len(convs) != len(re.findall(r"%", fmt.replace("%%", ""))) + fmt.count("%%"):
                 errors.append(f"{rel}:{line}: conversion other than %d %ld %s %.*G %% in {fmt!r}"); continue
-            literal = _c_unescape_len(re.sub(r"%(?:l?d|s|\.\*G)", "", fmt).replace("%%", "%"))
-            ints = sum(1 for c in convs if c.endswith("d"))
+            literal = _c_unescape_len(re.sub(r"%(?:l?[du]|s|\.\*G)", "", fmt).replace("%%", "%"))
+            ints = sum(2 if c.startswith("%l") else 1 for c in convs if c[-1] in "du")
             reals = sum(1 for c in convs if c.endswith("G"))
             rest = args[2:]
             names = 0
@@ -523,6 +588,8 @@ def extract(repo):
     e_cap, e_kind, e_n, e_term = entnode(h, env)
     ss_st, ss_guard = subsuper(sf, env)
     nms, nms_guard = complex_ctor(sc, env)
+    sch_cap = schformat(rd("src/clstepcore/Registry.cc"), env)
+    nms_exact = nms_copy_exact(sc)
     skipcm = skip_comments(rf)
     ews = ends_with_shape(strcc)
     mcl, rc_iters = read_comment(rf, rh, env)
@@ -578,6 +645,11 @@ def entNmArrGuard : Option Nat := {_opt(ss_guard)}
 def nmsStorage : Storage := {nms}
 /-- bound the constructor's own copy loop puts on the index (none: it runs to the NULL entry whatever the caller collected) -/
 def nmsLoopGuard : Option Nat := {_opt(nms_guard)}
+
+/-- `Registry::FindEntity`: capacity of the array that receives `strcpy( …, PrettyTmpName( schNm ) )` (none: no such copy) -/
+def schformatCap : Option Nat := {_opt(sch_cap)}
+/-- STEPcomplex ctor: every `strcpy( nms[j], … )` goes into a block allocated `length() + 1` on the line before -/
+def nmsCopyExactAlloc : Bool := {b(nms_exact)}
 
 /-- `StrEndsWith` (called by `GetLiteralStr` for every apostrophe): how much of the string it inspects -/
 def strEndsWithShape : EndsWithShape := {ews}
